@@ -76,8 +76,8 @@ def cmd_replay(prop, path, quiet):
         return 0
     plan = doc['plan'] if 'plan' in doc else doc
     ad.prepare_replay() if hasattr(ad, 'prepare_replay') else None
-    if str(doc.get('finding_key', '')).startswith('CRASH:'):
-        got = crash_check(ad, plan)
+    if str(doc.get('finding_key', '')).startswith(('CRASH:', 'HANG:')):
+        got = crash_check(ad, plan, doc.get('tier', 'quick') if doc.get('tier') in ('quick', 'thorough') else 'quick')
         if got == doc['finding_key']:
             print('REPRODUCED key=%s (the isolated process died again)' % got)
             print('VIOLATION property=%s replay=%s' % (prop, path))
@@ -153,14 +153,17 @@ def determinism_join(h):
     return {'runs': h['count'], 'interpreters': 2, 'hashseeds': [0, 4242], 'identical': ok, 'first_diffs': diff[:5]}
 
 
-def crash_check(ad, plan):
-    """Execute the plan in an isolated child; return 'CRASH:<SIGNAL>' if the child dies of a fault signal."""
-    from sim import isolate
+def crash_check(ad, plan, tier='quick'):
+    """Execute the plan in an isolated child; return 'CRASH:<SIGNAL>' if the child dies of a fault signal,
+    'HANG:...' if it does not finish within the per-run wall-clock limit."""
+    from sim import isolate, runner
     try:
-        ad.execute_isolated(plan)
+        isolate.with_rundir(ad.execute_full, (plan,), timeout=runner.RUN_TIMEOUT[tier])
     except isolate.ChildFailed as e:
         if e.signal in isolate.CRASH_SIGNALS:
             return 'CRASH:' + isolate.CRASH_SIGNALS[e.signal]
+        if e.signal == isolate.HANG_SIGNAL:
+            return 'HANG:no result within %ds' % runner.RUN_TIMEOUT[tier]
         raise
     return None
 
@@ -273,16 +276,15 @@ def cmd_check(prop, tier, nruns_override=None, workers=None, selftest=True):
         if key in seen_keys or len(reported) >= 3:
             continue
         seen_keys.add(key)
-        if key.startswith('CRASH:'):
-            crashed = crash_check(ad, v['plan'])
+        if key.startswith(('CRASH:', 'HANG:')):
+            crashed = crash_check(ad, v['plan'], tier)
             if crashed != key:
-                print('HARNESS-ERROR run %d crashed once (%s) but not when re-executed in isolation' % (v['i'], key))
-                write_evidence(prop, tier, base, ad, agg, det, [], [], time.time() - t0, status='harness_error')
-                return 2
+                unreproducible.append((key, v['i']))
+                continue
             rs = core.run_seed(prop, base, v['i'])
             os.makedirs(os.path.join(core.OUT_DIR, 'replays'), exist_ok=True)
             path = os.path.join(core.OUT_DIR, 'replays', '%s-%d-crash.json' % (prop, rs))
-            core.jdump({'property': prop, 'base_seed': base, 'run_index': v['i'], 'run_seed': rs, 'finding_key': key,
+            core.jdump({'property': prop, 'base_seed': base, 'run_index': v['i'], 'run_seed': rs, 'finding_key': key, 'tier': tier,
                         'violation': v['violation'], 'readable': ad.describe(v['plan']), 'plan': v['plan']}, path)
             reported.append({'i': v['i'], 'key': key, 'path': path, 'violation': v['violation']})
             continue
